@@ -6,13 +6,17 @@ From Coq Require Import List NArith Arith Bool Lia Permutation.
 From Quill Require Import Format.PatFmt Format.PatModel Format.PatProofs Format.PatDispatch.
 Import ListNotations.
 
+Section Variant.
+Variable v : pvar.   (* the variant of the formatter code (Format/PatModel.v): every statement holds for each *)
+
 (* ---------- formatters ---------- *)
-Lemma format_with_wf apply_spec p am st : wf p -> print p <> [] ->
-  format_with apply_spec {| po_pattern := print p; po_add_meta := am |} st
-  = Line (line_spec apply_spec p (env_of st)).
+Lemma format_with_wf apply_spec p am st : wfv v p -> print p <> [] ->
+  format_with v apply_spec {| po_pattern := print p; po_add_meta := am |} st
+  = Line (line_spec apply_spec p (env_of v st)).
 Proof.
-  intros Hwf Hne. unfold format_with. cbn [po_pattern].
-  rewrite (gen_print p Hwf). unfold format. now rewrite format_env_line.
+  unfold wfv. intros Hwf Hne. unfold format_with. cbn [po_pattern]. destruct (pv_esc v) eqn:He.
+  - rewrite (gen_print_esc v p He Hwf). unfold format. now rewrite format_env_line_esc.
+  - rewrite (gen_print v p Hwf). unfold format. now rewrite format_env_line.
 Qed.
 
 Lemma popts_eqb_eq a b : popts_eqb a b = true -> a = b.
@@ -44,7 +48,7 @@ Definition to_sink (s : ssink) : sink :=
      sk_pass := ss_pass s |}.
 
 Definition ssink_wf (s : ssink) : Prop :=
-  match ss_pat s with Some (p, _) => wf p /\ print p <> [] | None => True end.
+  match ss_pat s with Some (p, _) => wfv v p /\ print p <> [] | None => True end.
 
 (* the sink's effective pattern *)
 Definition eff_pat (lp : pat) (s : ssink) : pat :=
@@ -52,7 +56,7 @@ Definition eff_pat (lp : pat) (s : ssink) : pat :=
 
 (* the property's right-hand side *)
 Definition spec_line (apply_spec : bytes -> bytes -> bytes) (p : pat) (st : stmt) (m : bytes) : bytes :=
-  line_spec apply_spec p (env_of (with_msg st m)).
+  line_spec apply_spec p (env_of v (with_msg st m)).
 
 Definition spec_msgs (am : bool) (st : stmt) : list bytes :=
   if am && nargs_empty (s_nargs st)
@@ -117,8 +121,8 @@ Proof.
 Qed.
 
 Lemma write_log_statement_spec apply_spec lp am ss st lv m :
-  wf lp -> print lp <> [] -> Forall ssink_wf ss ->
-  write_log_statement false apply_spec {| po_pattern := print lp; po_add_meta := am |}
+  wfv v lp -> print lp <> [] -> Forall ssink_wf ss ->
+  write_log_statement false v apply_spec {| po_pattern := print lp; po_add_meta := am |}
                       (map to_sink ss) st lv m =
   (flat_map (fun s => if ss_pass s lv m (spec_line apply_spec lp st m)
                       then [(ss_id s, spec_line apply_spec (eff_pat lp s) st m)] else []) ss, None).
@@ -135,8 +139,8 @@ Qed.
 
 (* the whole event: every write, in order, no exception *)
 Lemma dispatch_spec apply_spec lp am ss st lv :
-  wf lp -> print lp <> [] -> Forall ssink_wf ss ->
-  dispatch_event false apply_spec {| po_pattern := print lp; po_add_meta := am |}
+  wfv v lp -> print lp <> [] -> Forall ssink_wf ss ->
+  dispatch_event false v apply_spec {| po_pattern := print lp; po_add_meta := am |}
                  (map to_sink ss) st lv
   = (spec_writes apply_spec lp am ss st lv, None).
 Proof.
@@ -185,9 +189,9 @@ Qed.
 (* every sink of the logger: exactly the lines of its own effective pattern for the message lines
    its filters pass - nothing about the other sinks appears on the right-hand side *)
 Lemma sink_receives apply_spec lp am ss st lv s :
-  wf lp -> print lp <> [] -> Forall ssink_wf ss -> NoDup (map ss_id ss) -> In s ss ->
+  wfv v lp -> print lp <> [] -> Forall ssink_wf ss -> NoDup (map ss_id ss) -> In s ss ->
   lines_for (ss_id s)
-    (fst (dispatch_event false apply_spec {| po_pattern := print lp; po_add_meta := am |}
+    (fst (dispatch_event false v apply_spec {| po_pattern := print lp; po_add_meta := am |}
                          (map to_sink ss) st lv))
   = spec_sink apply_spec lp am s st lv.
 Proof.
@@ -199,9 +203,9 @@ Qed.
 
 (* a sink that is not one of the logger's sinks receives nothing *)
 Lemma sink_absent apply_spec lp am ss st lv id :
-  wf lp -> print lp <> [] -> Forall ssink_wf ss -> ~ In id (map ss_id ss) ->
+  wfv v lp -> print lp <> [] -> Forall ssink_wf ss -> ~ In id (map ss_id ss) ->
   lines_for id
-    (fst (dispatch_event false apply_spec {| po_pattern := print lp; po_add_meta := am |}
+    (fst (dispatch_event false v apply_spec {| po_pattern := print lp; po_add_meta := am |}
                          (map to_sink ss) st lv)) = [].
 Proof.
   intros Hwf Hne Hss Hn. rewrite dispatch_spec by assumption. cbn [fst].
@@ -214,10 +218,10 @@ Qed.
 
 (* filters that reject every message line: nothing is received *)
 Lemma sink_filtered_out apply_spec lp am ss st lv s :
-  wf lp -> print lp <> [] -> Forall ssink_wf ss -> NoDup (map ss_id ss) -> In s ss ->
+  wfv v lp -> print lp <> [] -> Forall ssink_wf ss -> NoDup (map ss_id ss) -> In s ss ->
   (forall m l, ss_pass s lv m l = false) ->
   lines_for (ss_id s)
-    (fst (dispatch_event false apply_spec {| po_pattern := print lp; po_add_meta := am |}
+    (fst (dispatch_event false v apply_spec {| po_pattern := print lp; po_add_meta := am |}
                          (map to_sink ss) st lv)) = [].
 Proof.
   intros Hwf Hne Hss Hnd Hin Hp. rewrite sink_receives by assumption. unfold spec_sink.
@@ -227,25 +231,25 @@ Qed.
 (* independence: the same sink in two different sets of sinks of loggers with the same pattern
    options receives the same lines *)
 Lemma sink_independent apply_spec lp am ss ss' st lv s :
-  wf lp -> print lp <> [] ->
+  wfv v lp -> print lp <> [] ->
   Forall ssink_wf ss -> NoDup (map ss_id ss) -> In s ss ->
   Forall ssink_wf ss' -> NoDup (map ss_id ss') -> In s ss' ->
   lines_for (ss_id s)
-    (fst (dispatch_event false apply_spec {| po_pattern := print lp; po_add_meta := am |}
+    (fst (dispatch_event false v apply_spec {| po_pattern := print lp; po_add_meta := am |}
                          (map to_sink ss) st lv))
   = lines_for (ss_id s)
-    (fst (dispatch_event false apply_spec {| po_pattern := print lp; po_add_meta := am |}
+    (fst (dispatch_event false v apply_spec {| po_pattern := print lp; po_add_meta := am |}
                          (map to_sink ss') st lv)).
 Proof. intros. rewrite !sink_receives by assumption. reflexivity. Qed.
 
 (* order: any permutation of the logger's sinks gives every sink (any id) the same lines *)
 Lemma sink_order_irrelevant apply_spec lp am ss ss' st lv id :
-  wf lp -> print lp <> [] -> Forall ssink_wf ss -> NoDup (map ss_id ss) -> Permutation ss ss' ->
+  wfv v lp -> print lp <> [] -> Forall ssink_wf ss -> NoDup (map ss_id ss) -> Permutation ss ss' ->
   lines_for id
-    (fst (dispatch_event false apply_spec {| po_pattern := print lp; po_add_meta := am |}
+    (fst (dispatch_event false v apply_spec {| po_pattern := print lp; po_add_meta := am |}
                          (map to_sink ss) st lv))
   = lines_for id
-    (fst (dispatch_event false apply_spec {| po_pattern := print lp; po_add_meta := am |}
+    (fst (dispatch_event false v apply_spec {| po_pattern := print lp; po_add_meta := am |}
                          (map to_sink ss') st lv)).
 Proof.
   intros Hwf Hne Hss Hnd Hperm.
@@ -272,13 +276,13 @@ Definition clear_am (sk : sink) : sink :=
      sk_pass := sk_pass sk |}.
 
 Lemma format_with_am apply_spec o st :
-  format_with apply_spec {| po_pattern := po_pattern o; po_add_meta := false |} st
-  = format_with apply_spec o st.
+  format_with v apply_spec {| po_pattern := po_pattern o; po_add_meta := false |} st
+  = format_with v apply_spec o st.
 Proof. reflexivity. Qed.
 
 Lemma write_sinks_clear_am hoist apply_spec st' lv m L : forall sinks cur,
-  write_sinks hoist (fun o => format_with apply_spec o st') lv m L cur (map clear_am sinks)
-  = write_sinks hoist (fun o => format_with apply_spec o st') lv m L cur sinks.
+  write_sinks hoist (fun o => format_with v apply_spec o st') lv m L cur (map clear_am sinks)
+  = write_sinks hoist (fun o => format_with v apply_spec o st') lv m L cur sinks.
 Proof.
   induction sinks as [|sk r IH]; intros cur; [reflexivity|].
   cbn [map write_sinks].
@@ -290,7 +294,7 @@ Proof.
           end).
   destruct (sk_pass sk lv m L); [|apply IH].
   destruct (sk_override sk) as [o|].
-  - rewrite format_with_am. destruct (format_with apply_spec o st'); [|reflexivity].
+  - rewrite format_with_am. destruct (format_with v apply_spec o st'); [|reflexivity].
     now rewrite IH.
   - now rewrite IH.
 Qed.
@@ -301,14 +305,15 @@ Proof.
 Qed.
 
 Lemma override_add_meta_ignored hoist apply_spec lo sinks st lv :
-  dispatch_event hoist apply_spec lo (map clear_am sinks) st lv
-  = dispatch_event hoist apply_spec lo sinks st lv.
+  dispatch_event hoist v apply_spec lo (map clear_am sinks) st lv
+  = dispatch_event hoist v apply_spec lo sinks st lv.
 Proof.
   unfold dispatch_event. destruct (dispatch_msgs _ _ _) as [ms|]; [|reflexivity].
   apply write_msgs_ext. intros m. unfold write_log_statement.
-  destruct (format_with apply_spec lo (with_msg st m)); [|reflexivity].
+  destruct (format_with v apply_spec lo (with_msg st m)); [|reflexivity].
   apply write_sinks_clear_am.
 Qed.
+End Variant.
 
 (* ---------- witnesses ---------- *)
 Definition pat_L : pat := [Lit [76; 32]%N; Attr Message None].     (* "L %(message)" *)
@@ -340,52 +345,52 @@ Proof.
   - cbn. exact I.
 Qed.
 
-Lemma ex_sinks_wf : Forall ssink_wf [ex_over; ex_plain] /\ NoDup (map ss_id [ex_over; ex_plain]).
+Lemma ex_sinks_wf v : Forall (ssink_wf v) [ex_over; ex_plain] /\ NoDup (map ss_id [ex_over; ex_plain]).
 Proof.
   split.
-  - constructor; [exact pat_O_wf|]. constructor; [exact I|constructor].
+  - constructor; [exact (conj (wf_wfv v _ (proj1 pat_O_wf)) (proj2 pat_O_wf))|]. constructor; [exact I|constructor].
   - cbn. constructor; [intros [H|[]]; discriminate|]. constructor; [intros []|constructor].
 Qed.
 
 (* non-vacuity with the computed outcome: override sink first, plain sink second, "hi" *)
-Lemma ex_dispatch_good :
-  dispatch_event false id_spec (ex_lo true) (map to_sink [ex_over; ex_plain]) (ex_stmt [104; 105]%N) 4
+Lemma ex_dispatch_good : forall v,
+  dispatch_event false v id_spec (ex_lo true) (map to_sink [ex_over; ex_plain]) (ex_stmt [104; 105]%N) 4
   = ([(0%N, [79; 32; 104; 105; 10]%N); (1%N, [76; 32; 104; 105; 10]%N)], None).
-Proof. vm_compute. reflexivity. Qed.
+Proof. intros [b [|]]; vm_compute; reflexivity. Qed.
 
 (* the hoisted declaration: the plain sink behind an override sink is handed the override line *)
-Lemma hoisted_refuted :
-  let r := dispatch_event true id_spec (ex_lo true) (map to_sink [ex_over; ex_plain])
+Lemma hoisted_refuted : forall v,
+  let r := dispatch_event true v id_spec (ex_lo true) (map to_sink [ex_over; ex_plain])
                           (ex_stmt [104; 105]%N) 4 in
   lines_for 1 (fst r) = [[79; 32; 104; 105; 10]%N] /\
-  spec_sink id_spec pat_L true ex_plain (ex_stmt [104; 105]%N) 4 = [[76; 32; 104; 105; 10]%N] /\
-  lines_for 1 (fst r) <> spec_sink id_spec pat_L true ex_plain (ex_stmt [104; 105]%N) 4 /\
+  spec_sink v id_spec pat_L true ex_plain (ex_stmt [104; 105]%N) 4 = [[76; 32; 104; 105; 10]%N] /\
+  lines_for 1 (fst r) <> spec_sink v id_spec pat_L true ex_plain (ex_stmt [104; 105]%N) 4 /\
   (* and the order of the sinks matters in that variant *)
-  lines_for 1 (fst (dispatch_event true id_spec (ex_lo true) (map to_sink [ex_plain; ex_over])
+  lines_for 1 (fst (dispatch_event true v id_spec (ex_lo true) (map to_sink [ex_plain; ex_over])
                                    (ex_stmt [104; 105]%N) 4)) = [[76; 32; 104; 105; 10]%N].
-Proof. repeat split; try (vm_compute; reflexivity). vm_compute. discriminate. Qed.
+Proof. intros [b [|]]; repeat split; try (vm_compute; reflexivity); vm_compute; discriminate. Qed.
 
 (* a sink whose override options say add_metadata_to_multi_line_logs = false, on a logger whose
    options say true: "a\nb" still arrives as two statements (and the other way round as one) *)
 Definition ex_over_noml : ssink :=
   {| ss_id := 0%N; ss_pat := Some (pat_O, false); ss_pass := pass_all |}.
-Lemma override_multiline_option_refuted :
-  lines_for 0 (fst (dispatch_event false id_spec (ex_lo true) (map to_sink [ex_over_noml])
+Lemma override_multiline_option_refuted : forall v,
+  lines_for 0 (fst (dispatch_event false v id_spec (ex_lo true) (map to_sink [ex_over_noml])
                                    (ex_stmt [97; 10; 98]%N) 4))
     = [[79; 32; 97; 10]%N; [79; 32; 98; 10]%N] /\
-  lines_for 0 (fst (dispatch_event false id_spec (ex_lo false) (map to_sink [ex_over])
+  lines_for 0 (fst (dispatch_event false v id_spec (ex_lo false) (map to_sink [ex_over])
                                    (ex_stmt [97; 10; 98]%N) 4))
     = [[79; 32; 97; 10; 98; 10]%N].
-Proof. split; vm_compute; reflexivity. Qed.
+Proof. intros [b [|]]; split; vm_compute; reflexivity. Qed.
 
 (* outside the property's quantifier (invalid override pattern): the exception thrown when the
    sink's formatter is created leaves the event, so the sinks behind it are starved *)
 Definition ex_bad : sink :=
   {| sk_id := 0%N; sk_override := Some {| po_pattern := [c_pct; c_lp; 120%N; c_rp]; po_add_meta := true |};
      sk_pass := pass_all |}.
-Lemma invalid_override_starves_later_sinks :
-  dispatch_event false id_spec (ex_lo true) [ex_bad; to_sink ex_plain] (ex_stmt [104; 105]%N) 4
+Lemma invalid_override_starves_later_sinks : forall v,
+  dispatch_event false v id_spec (ex_lo true) [ex_bad; to_sink ex_plain] (ex_stmt [104; 105]%N) 4
   = ([], Some 12%N) /\
-  dispatch_event false id_spec (ex_lo true) [to_sink ex_plain; ex_bad] (ex_stmt [104; 105]%N) 4
+  dispatch_event false v id_spec (ex_lo true) [to_sink ex_plain; ex_bad] (ex_stmt [104; 105]%N) 4
   = ([(1%N, [76; 32; 104; 105; 10]%N)], Some 12%N).
-Proof. split; vm_compute; reflexivity. Qed.
+Proof. intros [b [|]]; split; vm_compute; reflexivity. Qed.
